@@ -851,7 +851,10 @@ fn dec_settings(s: &Sexp) -> Option<wirefilter::ParserSettings> {
         return None;
     }
     let mut st = wirefilter::ParserSettings::default();
-    st.max_nesting_depth = u16::try_from(d.as_u128()?).ok()?;
+    // `default`: keep the library's own default limit
+    if !d.is_sym("default") {
+        st.max_nesting_depth = u16::try_from(d.as_u128()?).ok()?;
+    }
     if !l.is_sym("none") {
         st.wildcard_star_limit = l.as_usize()?;
     }
@@ -909,16 +912,19 @@ pub fn run_parse(args: &[Sexp], value: bool) -> Option<Sexp> {
         }
     };
     let by_settings = info.scheme.parser_with_settings(settings.clone());
+    let is_default = matches!(st.as_list(), Some([_, d, l]) if d.is_sym("default") && l.is_sym("none"));
     let mut by_setters = info.scheme.parser();
-    by_setters.set_max_nesting_depth(settings.max_nesting_depth);
-    by_setters.wildcard_set_star_limit(settings.wildcard_star_limit);
+    if !is_default {
+        by_setters.set_max_nesting_depth(settings.max_nesting_depth);
+        by_setters.wildcard_set_star_limit(settings.wildcard_star_limit);
+    }
     let a = run(&by_settings);
     let b = run(&by_setters);
     if a != b {
         return Some(Sexp::tagged("configuration-paths-differ", vec![a, b]));
     }
     // with the default limits Scheme::parse / Scheme::parse_value are a third way in
-    if settings == wirefilter::ParserSettings::default() {
+    if is_default || settings == wirefilter::ParserSettings::default() {
         let c = if value {
             match info.scheme.parse_value(&text) {
                 Ok(x) => Sexp::tagged("ok", vec![enc_iexpr(&info, x.expression(), "field")]),
